@@ -7,7 +7,7 @@ mode, n, seed = sys.argv[1], int(sys.argv[2]), int(sys.argv[3])
 prefix = sys.argv[4] if len(sys.argv) > 4 else ""
 back = int(sys.argv[5]) if len(sys.argv) > 5 else 14
 ctx = vlib.Ctx("dev", "quick")
-exe = ctx.build_harness("server")
+exe = ctx.build_harness("server", only=["zz_verif_engine_test.go", "zz_verif_engine_monitor_test.go"])
 outdir = ctx.run_harness(exe, mode, n, seed=seed, extra={"VERIF_OPS": os.environ.get("VERIF_OPS", "40")})
 impls = {}
 for a, b in zip(open(outdir + f"/{mode}.ops"), open(outdir + f"/{mode}.impl")):
